@@ -3,7 +3,8 @@ import expr_cluster as K
 import gen_expr as G
 
 PROP = "C06"
-CONE = K.MODEL_FILES + ["Proofs/ExprRefine.v", "Proofs/MessageProofs.v", "Props/C06.v"]
+CONE = K.MODEL_FILES + ["Proofs/ExprRefine.v", "Proofs/ExprCorollaries.v", "Proofs/ExprRange.v", "Proofs/ExprSound.v",
+                        "Proofs/MessageProofs.v", "Props/C06.v"]
 RULE = ("directed shapes first (guards, `or` inside calls, shadowing arguments, names bound to None, star arguments, "
         "all() with one and two loops and used inside other expressions, loop variables shadowing outer names, "
         "assignment and conditional expressions, f-strings, displays, slices, dict comprehensions, _ARGS/_KWARGS), then "
